@@ -2626,8 +2626,17 @@ class DiskObjectStore(PackBasedObjectStore):
             sha = hex_to_sha(cast(ObjectID, sha))
 
         midx = self.get_midx()
-        if midx is not None and sha in midx:
-            return True
+        if midx is not None:
+            result = midx.object_offset(sha)
+            if result is not None:
+                # The MIDX may be stale (written before a repack or prune):
+                # only believe it while the pack it points to still exists.
+                try:
+                    self._get_pack_by_name(result[0])
+                except KeyError:
+                    pass
+                else:
+                    return True
 
         # Fall back to checking individual packs
         return super().contains_packed(sha)
